@@ -421,4 +421,164 @@ def solvedBoardB (n k : Nat) (s : State) (solved : Grid Int) : Bool :=
   Grid.all (fun v => decide (0 ≤ v) && decide (v ≤ 3 * (k : Int))) solved &&
   (List.zipWith (fun r r' => (List.zipWith (fun (v v' : Int) => v == 0 || v == v') r r').all id) s.grid solved).all id
 
+/-! ### L1: whole episodes of the transliterated `step` -/
+
+/-- the states an episode passes through under the implementation model `step`: `[s₀, s₁, …, s_T]` -/
+def traceL1 (cfg : Cfg) : State → List (List Int) → List State
+  | s, [] => [s]
+  | s, a :: rest => s :: traceL1 cfg (step cfg s a).1 rest
+
+/-- the final state of an episode under the implementation model `step` -/
+def finalL1 (cfg : Cfg) : State → List (List Int) → State
+  | s, [] => s
+  | s, a :: rest => finalL1 cfg (step cfg s a).1 rest
+
+/-! ### L1: the generators (generator.py) -/
+
+/-- `jnp.divmod(cell, grid_size)` (floor division) -/
+def unflat (n : Nat) (c : Int) : Pos := (c / (n : Int), c % (n : Int))
+
+/-- `jnp.zeros((grid_size, grid_size))` -/
+def zeroGrid (n : Nat) : Grid Int := Grid.mk n n 0
+
+/-- `grid.at[(rows, cols)].set(values)`: one scattered value per agent (wrap, then drop) -/
+def scatter (g : Grid Int) (ps : List Pos) (vals : List Int) : Grid Int :=
+  (List.zip ps vals).foldl (fun g x => Grid.setWD g x.1.1 x.1.2 x.2) g
+
+/-- `jax.vmap(Agent)(id=arange(k), start=…, target=…, position=…)` -/
+def mkAgents (k : Nat) (starts targets positions : List Pos) : List Agent :=
+  (List.range k).map (fun (i : Nat) => ⟨(i : Int), starts.getD i (0, 0), targets.getD i (0, 0), positions.getD i (0, 0)⟩)
+
+/-- the board both generators hand out: an empty grid with the head values at `starts` and the target values
+at `targets`; every agent stands on its start; step count 0 -/
+def emitBoard (n k : Nat) (starts targets : List Pos) : State :=
+  let g1 := scatter (zeroGrid n) starts ((agentIds k).map posVal)
+  let g2 := scatter g1 targets ((agentIds k).map tgtVal)
+  { grid := g2, stepCount := 0, agents := mkAgents k starts targets starts }
+
+/-- draw of `UniformRandomGenerator`: the result of `jax.random.choice(arange(n²), shape=(2, k), replace=False)`
+in row-major order (the `k` start cells, then the `k` target cells): `2k` pairwise different cells `< n²` -/
+def validUniformDraw (n k : Nat) (cells : List Nat) : Bool :=
+  cells.length == 2 * k && decide cells.Nodup && cells.all (fun c => decide (c < n * n))
+
+/-- `UniformRandomGenerator.__call__` -/
+def uniformGenerate (n k : Nat) (cells : List Nat) : State :=
+  emitBoard n k ((cells.take k).map (fun (c : Nat) => unflat n (c : Int))) ((cells.drop k).map (fun (c : Nat) => unflat n (c : Int)))
+
+/-- the draw of `UniformRandomGenerator` read off a state it produced -/
+def uniformDrawOf (n : Nat) (s : State) : List Nat :=
+  s.agents.map (fun ag => (ag.start.1 * (n : Int) + ag.start.2).toNat) ++
+  s.agents.map (fun ag => (ag.target.1 * (n : Int) + ag.target.2).toNat)
+
+/-- `flat_grid.at[c].set(v)` on the flattened grid (wrap, then drop), reshaped back -/
+def setFlat (n : Nat) (g : Grid Int) (c : Int) (v : Int) : Grid Int :=
+  let j := wrapIdx (n * n) c
+  if j < 0 then g else if j ≥ ((n * n : Nat) : Int) then g else Grid.set g (j.toNat / n) (j.toNat % n) v
+
+/-- `grid[jnp.divmod(cell, grid_size)]` (gather: wrap, then clamp) -/
+def getUnflat (n : Nat) (g : Grid Int) (c : Int) : Int := Grid.getWC g 0 (unflat n c).1 (unflat n c).2
+
+/-- `_adjacent_cells`: the flat indices of the cells above, below, left and right; `-1` where that leaves the grid -/
+def adjacentCells (n : Nat) (c : Int) : List Int :=
+  ([-(n : Int), (n : Int), -1, 1] : List Int).map (fun d =>
+    let x := c + d
+    let inRange := decide (0 ≤ x) && decide (x < ((n * n : Nat) : Int))
+    let sameLine := decide ((unflat n x).1 = (unflat n c).1) || decide ((unflat n x).2 = (unflat n c).2)
+    if inRange && sameLine then x else -1)
+
+/-- `_is_cell_free` -/
+def isCellFree (n : Nat) (g : Grid Int) (c : Int) : Bool := c != -1 && getUnflat n g c == 0
+
+/-- `_is_cell_doubling_back` (`True` = fine: the cell touches at most one cell of wire `w`) -/
+def notDoublingBack (n : Nat) (g : Grid Int) (w : Int) (c : Int) : Bool :=
+  let touching := (adjacentCells n c).map (fun x =>
+    let v := getUnflat n g x
+    x != -1 && (v == 3 * w + 2 || v == 3 * w + 1 || v == 3 * w + 3))
+  decide ((touching.filter id).length ≤ 1)
+
+/-- `_available_cells` -/
+def availableCells (n : Nat) (g : Grid Int) (c : Int) : List Int :=
+  let w := (getUnflat n g c - 1) / 3
+  (adjacentCells n c).map (fun x => if isCellFree n g x && notDoublingBack n g w x then x else -1)
+
+/-- `jax.random.choice(key, a, shape=(), p=mask)`: some entry of `a` whose mask bit is set; when no bit is set
+the cumulative sum is all zero and `searchsorted` returns index 0, i.e. `a[0]` -/
+def validChoice (a : List Int) (mask : List Bool) (d : Int) : Bool :=
+  if mask.any id then (List.zip a mask).any (fun x => x.2 && x.1 == d) else d == a.headD 0
+
+/-- `_initialize_starts_and_first_move` for agent `id` with draw `d = (start cell, first-move cell)` -/
+def walkInitStep (n : Nat) (g : Grid Int) (id : Int) (d : Int × Int) : Grid Int :=
+  setFlat n (setFlat n g d.1 (tgtVal id)) d.2 (posVal id)
+
+def validInitDraw (n : Nat) (g : Grid Int) (id : Int) (d : Int × Int) : Bool :=
+  validChoice ((List.range (n * n)).map (fun (c : Nat) => (c : Int))) ((List.flatten g).map (fun v => v == 0)) d.1 &&
+  (let av := availableCells n (setFlat n g d.1 (tgtVal id)) d.1
+   validChoice av (av.map (fun x => x != -1)) d.2)
+
+/-- the `lax.scan` of `_initialize_agents`: grid and validity of the draws -/
+def walkInit (n : Nat) : Grid Int → Nat → List (Int × Int) → Grid Int × Bool
+  | g, _, [] => (g, true)
+  | g, i, d :: rest =>
+    let r := walkInit n (walkInitStep n g (i : Int) d) (i + 1) rest
+    (r.1, validInitDraw n g (i : Int) d && r.2)
+
+/-- `_convert_tuple_to_flat_position` -/
+def flatPos (n : Nat) (p : Pos) : Int := p.1 * (n : Int) + p.2
+
+/-- `_no_available_cells` -/
+def noAvailable (n : Nat) (g : Grid Int) (ag : Agent) : Bool :=
+  (availableCells n g (flatPos n ag.position)).all (fun x => x == -1)
+
+/-- `_continue_stepping` -/
+def continueStepping (n : Nat) (g : Grid Int) (agents : List Agent) : Bool := !(agents.all (noAvailable n g))
+
+/-- `_action_from_positions` / `_action_from_tuple` -/
+def actionFromCells (n : Nat) (c1 c2 : Int) : Int :=
+  let d : Pos := ((unflat n c2).1 - (unflat n c1).1, (unflat n c2).2 - (unflat n c1).2)
+  (if d = (-1, 0) then 1 else 0) + (if d = (1, 0) then 3 else 0) + (if d = (0, -1) then 4 else 0) +
+  (if d = (0, 1) then 2 else 0)
+
+/-- the actions `_select_action` derives from the drawn cells -/
+def walkActions (n : Nat) (agents : List Agent) (d : List Int) : List Int :=
+  List.zipWith (fun ag c => actionFromCells n (flatPos n ag.position) c) agents d
+
+/-- the `lax.while_loop` of `generate_board`; one entry of the tape (the cells drawn by `_select_action`, one per
+agent) per iteration; `_step_agents` of the generator is the environment's `_step_agents` -/
+def walkLoop (n k : Nat) : Grid Int → List Agent → List (List Int) → Grid Int × List Agent
+  | g, ags, [] => (g, ags)
+  | g, ags, d :: rest =>
+    if continueStepping n g ags then
+      let r := stepAgents k ⟨g, 0, ags⟩ (walkActions n ags d)
+      walkLoop n k r.2 r.1 rest
+    else (g, ags)
+
+/-- the tape is what the loop consumes: every iteration's draws are possible results of `jax.random.choice` and
+the tape ends exactly when the loop condition fails -/
+def validTape (n k : Nat) : Grid Int → List Agent → List (List Int) → Bool
+  | g, ags, [] => !continueStepping n g ags
+  | g, ags, d :: rest =>
+    continueStepping n g ags && d.length == k &&
+    (List.zipWith (fun ag c =>
+        let av := availableCells n g (flatPos n ag.position)
+        validChoice av (av.map (fun x => x != -1)) c) ags d).all id &&
+    (let r := stepAgents k ⟨g, 0, ags⟩ (walkActions n ags d)
+     validTape n k r.2 r.1 rest)
+
+/-- the agents after `_initialize_agents` -/
+def walkAgents0 (n k : Nat) (init : List (Int × Int)) : List Agent :=
+  mkAgents k (init.map (fun d => unflat n d.1)) (List.replicate k (-1, -1)) (init.map (fun d => unflat n d.2))
+
+/-- all draws of one call of `RandomWalkGenerator.generate_board` are possible -/
+def validWalkDraw (n k : Nat) (init : List (Int × Int)) (tape : List (List Int)) : Bool :=
+  init.length == k && (walkInit n (zeroGrid n) 0 init).2 &&
+  validTape n k (walkInit n (zeroGrid n) 0 init).1 (walkAgents0 n k init) tape
+
+/-- `RandomWalkGenerator.generate_board`: `(solved_grid, state)` -/
+def walkGenerate (n k : Nat) (init : List (Int × Int)) (tape : List (List Int)) : Grid Int × State :=
+  let r := walkLoop n k (walkInit n (zeroGrid n) 0 init).1 (walkAgents0 n k init) tape
+  let heads := r.2.map (fun ag => ag.start)
+  let targets := r.2.map (fun ag => ag.position)
+  let solved := scatter (scatter r.1 heads ((agentIds k).map posVal)) targets ((agentIds k).map tgtVal)
+  (solved, emitBoard n k heads targets)
+
 end Connector
